@@ -838,7 +838,7 @@ Proof.
       intros _ Esn. unfold padding_place in Hs. apply andb_true_iff in Hfit as [_ Hnn].
       destruct (padding_values o (fst s)) as [l r]. specialize (Hs _ (or_introl eq_refl)). cbn [p_size] in Hs. subst cs.
       cbn [fst snd] in Er. replace (fst s - l - r) with (fst s - (l + r)) by qlia. apply Er; [|exact Esn].
-      unfold is_fixed. cbn [fst]. qlia.
+      unfold is_fixed. cbn [fst]. clear - Hnn. lia.
 Qed.
 
 (* ------------------------------------------------------------------------------------------ *)
@@ -1763,14 +1763,10 @@ Proof.
         [intro; apply feq_refl|exact Hits|apply Hieq]. }
     assert (Hcls : xieq (xcol_cs s w (o, ib, xi)) xi2 xi).
     { destruct Hcs as [<-|[c [n [n' [Ecs Ecs']]]]]; [exact Hieq|]. rewrite Ecs'. apply (xieq_box _ _ _ _ _ Hieq).
-      rewrite Ecs in Hcf. destruct (FO _ Hcf) as [Hx|[Hx _]]; [|cbn [fst] in Hx; qlia].
-      unfold is_fixed in Hx. cbn [fst] in Hx.
-      (* a box size with a negative width never fits; use the width of the entry instead *)
-      exfalso. pose proof (Forall_forall (fun t : Z * Z * size => 1 <= cw t) (xcolumns_sizes its i dc mw s)) as [HF _].
-      specialize (HF Hwid (w, h, cs) (nthz_In _ _ _ Hent)). unfold cw in HF. cbn [fst] in HF.
+      pose proof (proj1 (Forall_forall _ _) Hwid (w, h, cs) (nthz_In _ _ _ Hent)) as HF. unfold cw in HF. cbn [fst] in HF.
       destruct (xcolumns_sizes_shape its i dc mw s i _ Hent) as [o1 [b1 [xi1 [_ Hsh]]]]. unfold col_shape in Hsh.
       rewrite Ecs in Hsh. destruct Hsh as [Hsh|[Hsh|[Hsh _]]]; [discriminate Hsh| |discriminate Hsh].
-      inversion Hsh; subst. qlia. }
+      injection Hsh as Hc _. clear - Hc HF. lia. }
     assert (Esz' : xcolumns_sizes its' i dc mw s = xcolumns_sizes its i dc mw s).
     { destruct (is_fixed s) eqn:Efs.
       - apply (xcolumns_sizes_cong_fixed s its' its i dc mw Efs); [|exact Hwid].
